@@ -102,6 +102,12 @@ func (c *Ctx) sym(hint string) string {
 }
 
 func (c *Ctx) declare(hint, sort string) Term {
+	if strings.Contains(sort, "Str") {
+		c.needStr()
+	}
+	if strings.Contains(sort, "F64") {
+		c.needF64()
+	}
 	s := c.sym(hint)
 	c.decls = append(c.decls, fmt.Sprintf("(declare-fun %s () %s)", s, sort))
 	c.markDeclared(s)
